@@ -739,7 +739,13 @@ type UnaryArithmetic struct {
 }
 
 func (e UnaryArithmetic) String() string {
-	return e.Operator.String() + e.Operand.String()
+	operator := e.Operator.String()
+	operand := e.Operand.String()
+	if strings.HasPrefix(operand, operator) {
+		// "- -1" must not be printed as the line comment "--1"
+		return operator + " " + operand
+	}
+	return operator + operand
 }
 
 type Logic struct {
@@ -765,7 +771,12 @@ func (e UnaryLogic) String() string {
 		s := []string{e.Operator.String(), e.Operand.String()}
 		return joinWithSpace(s)
 	}
-	return e.Operator.String() + e.Operand.String()
+	operand := e.Operand.String()
+	if 0 < len(operand) && strings.ContainsRune("=<>!|:", rune(operand[0])) {
+		// "! !TRUE" must not be printed as the unknown operator "!!"
+		return e.Operator.String() + " " + operand
+	}
+	return e.Operator.String() + operand
 }
 
 type Concat struct {
